@@ -95,6 +95,9 @@ def gen_case(seed, i, tier, focus='default', loading=False, tag='seq'):
             'sessions': sessions, 'flush_policy': r.choice(['never', 'never', 'always', 'seeded'])}
     if tag != 'c13':
         case['go_on_after_c13'] = True
+    if r.chance(0.12):
+        # an in-memory database shared inside the process (':sharedmemory:'): Pony's pool keeps its connection for good
+        knobs['dbkind'] = 'shared'
     return case
 
 
